@@ -207,6 +207,17 @@ class MergeInterp(SetInterp):
 # ------------------------------------------------------------------ reference semantics on rows
 
 COLS = ("a", "b", "p")
+
+
+class _BoomType:
+    """The value of column `r` on rows where it cannot be evaluated (a partial function outside its domain)."""
+
+    def __repr__(self) -> str:
+        return "<undefined>"
+
+
+BOOM = _BoomType()
+_Q = [False, False, True, False, True, False, False, True, False, True, False, False]
 BASE_ROWS = [
     {"a": 2, "b": 0, "p": True},
     {"a": 0, "b": 1, "p": False},
@@ -221,16 +232,28 @@ BASE_ROWS = [
     {"a": 2, "b": 1, "p": True},
     {"a": 1, "b": 0, "p": True},
 ]
+for _i, _row in enumerate(BASE_ROWS):
+    _row["q"] = _Q[_i]
+    # `r` is a predicate that is only defined where the guard `p or q` holds (think `10 // a > 1` behind `a != 0`)
+    _row["r"] = (_i % 3 == 0) if (_row["p"] or _row["q"]) else BOOM
+ALL_COLS = ("a", "b", "p", "q", "r")
 
 
 class _Unsupported(Exception):
     pass
 
 
+class _Boom(Exception):
+    """A predicate was evaluated on a row where it is undefined."""
+
+
 def _expr(e: Obj, row: dict):
     n = e.cls.name
     if n == "ColumnReference" or n == "PredicateReference":
-        return row[e.attrs["tag"]]
+        v = row[e.attrs["tag"]]
+        if v is BOOM:
+            raise _Boom(e.attrs["tag"])
+        return v
     if n in ("ColumnLiteral", "PredicateLiteral"):
         return e.attrs["value"]
     if n == "LogicalNot":
@@ -319,6 +342,9 @@ def _universe(ctx: Ctx) -> list[Obj]:
     ref = lambda t: Obj(ctx.cls(E, "ColumnReference"), tag=t, dtype=None)  # noqa: E731
     lit = Obj(ctx.cls(E, "ColumnLiteral"), value=7, dtype=None)
     pr = Obj(ctx.cls(P, "PredicateReference"), tag="p")
+    qr = Obj(ctx.cls(P, "PredicateReference"), tag="q")
+    rr = Obj(ctx.cls(P, "PredicateReference"), tag="r")
+    guard = Obj(ctx.cls(P, "LogicalOr"), operands=(pr, qr))
     T = Obj(ctx.cls(P, "PredicateLiteral"), value=True)
     F = Obj(ctx.cls(P, "PredicateLiteral"), value=False)
     notp = Obj(ctx.cls(P, "LogicalNot"), operand=pr)
@@ -328,11 +354,17 @@ def _universe(ctx: Ctx) -> list[Obj]:
     for r in range(0, 4):
         for cols in itertools.combinations(COLS, r):
             ops.append(Obj(proj, columns=frozenset(cols)))
+    ops.append(Obj(proj, columns=frozenset(ALL_COLS)))
+    ops.append(Obj(proj, columns=frozenset(("a", "p", "q", "r"))))
     ops.append(Obj(calc, tag="c", expression=ref("a")))
     ops.append(Obj(calc, tag="c", expression=lit))
     ops.append(Obj(calc, tag="d", expression=ref("b")))
     for p in (pr, notp, T, F, Obj(ctx.cls(P, "LogicalAnd"), operands=(pr, T)), Obj(ctx.cls(P, "LogicalOr"), operands=(notp, F))):
         ops.append(Obj(sel, predicate=p))
+    # a guard over two columns, the guarded partial predicate, and their (short-circuiting) conjunction
+    ops.append(Obj(sel, predicate=guard))
+    ops.append(Obj(sel, predicate=rr))
+    ops.append(Obj(sel, predicate=Obj(ctx.cls(P, "LogicalAnd"), operands=(guard, rr))))
     for s in range(0, 4):
         ops.append(Obj(slc, start=s, stop=None))
         for e in range(s, 5):
@@ -362,17 +394,23 @@ def decided(ctx: Ctx):
 def _decide(ctx: Ctx):
     m = ctx.m
     ops = _universe(ctx)
-    base_cols = set(COLS)
+    base_cols = set(ALL_COLS)
     bad: dict[str, tuple[str, FunctionInfo | None]] = {}
     counts: dict[str, int] = {}
     merged: dict[str, int] = {}
     for up in ops:
-        mid = _apply(up, BASE_ROWS, base_cols)
+        try:
+            mid = _apply(up, BASE_ROWS, base_cols)
+        except _Boom:
+            continue  # not evaluable on its own
         if mid is None:
             continue
         mid_rows, mid_cols = mid
         for new in ops:
-            want = _apply(new, mid_rows, mid_cols)
+            try:
+                want = _apply(new, mid_rows, mid_cols)
+            except _Boom:
+                continue
             if want is None:
                 continue
             key = f"{new.cls.name}.simplify({up.cls.name})"
@@ -401,6 +439,13 @@ def _decide(ctx: Ctx):
                 res = _apply(got, BASE_ROWS, base_cols)
             except _Unsupported as e:
                 raise AnalysisError(f"{key}: merged into a {e} operation the reference semantics does not know")
+            except _Boom as e:
+                bad[key] = (
+                    f"{pair}: merged into {_show_op(got)}, which evaluates `{e}` on a row the upstream operation had removed (where it is undefined): "
+                    "applied in sequence the later predicate only ever sees rows that passed the earlier one",
+                    _blame(ctx, new, up, meth),
+                )
+                continue
             if res is None:
                 bad[key] = (f"{pair}: merged into {_show_op(got)}, which is not well-formed on the upstream relation (columns {sorted(base_cols)})", meth)
                 continue
@@ -451,8 +496,8 @@ def r13_7_selection_stores_equivalent(ctx: Ctx, rule: str = "R13.7") -> None:
     run, m = ctx.run, ctx.m
     run.rule(
         rule,
-        "Selection(p).predicate has p's truth value under every assignment of the opaque atoms, for every predicate tree of "
-        "the folding universe (the constructor's normalisation is evaluated, not pattern-matched)",
+        "Selection(p).predicate has p's truth value under every assignment of the opaque atoms and mentions the same columns, "
+        "for every predicate tree of the folding universe (the constructor's normalisation is evaluated, not pattern-matched)",
         expected_min=1,
     )
     sel = ctx.op_class("Selection")
@@ -473,6 +518,15 @@ def r13_7_selection_stores_equivalent(ctx: Ctx, rule: str = "R13.7") -> None:
         stored = o.attrs.get("predicate")
         if not isinstance(stored, Obj):
             bad = bad or f"Selection({foldeval._show(t)}) stores {stored!r}"
+            continue
+        from .reqeval import _ref_columns
+
+        if _ref_columns(stored) != _ref_columns(t):
+            lost = sorted(set(_ref_columns(t)) - set(_ref_columns(stored)))
+            bad = bad or (
+                f"Selection({foldeval._show(t)}) stores `{foldeval._show(stored)}`, which no longer mentions column(s) {lost}: a selection on a relation that lacks "
+                "them is then accepted although the predicate that was asked for cannot be evaluated there (only literal conjuncts may be dropped)"
+            )
             continue
         for a in foldeval._ASSIGNMENTS:
             if foldeval._value(stored, a) != foldeval._value(t, a):
